@@ -345,6 +345,48 @@ def registry_proxies(d):
   return ListProxy, registry
 
 
+def make_pq(d, name):
+  """a queue.PriorityQueue whose operations are visible steps `name`.<op> (the fabric's two queues)"""
+  class PQ(queue.PriorityQueue):
+    def put(self, item, block=True, timeout=None):
+      d.before(name, "put" if block else "put_nowait")
+      return queue.PriorityQueue.put(self, item, block, timeout)
+
+    def put_nowait(self, item):
+      d.before(name, "put_nowait")
+      return queue.PriorityQueue.put(self, item, False)
+
+    def get(self, block=True, timeout=None):
+      d.before(name, "get" if block else "get_nowait")
+      if d.free or not block:
+        return queue.PriorityQueue.get(self, block, timeout)
+      try:
+        return queue.PriorityQueue.get(self, False)
+      except queue.Empty:
+        raise Mismatch("queue %s: the schedule grants a get that would block" % name)
+
+    def get_nowait(self):
+      d.before(name, "get_nowait")
+      return queue.PriorityQueue.get(self, False)
+
+    def task_done(self):
+      d.before(name, "task_done")
+      return queue.PriorityQueue.task_done(self)
+
+    def empty(self):
+      d.before(name, "empty")
+      return queue.PriorityQueue.empty(self)
+
+    def full(self):
+      d.before(name, "full")
+      return queue.PriorityQueue.full(self)
+
+    def qsize(self):
+      d.before(name, "qsize")
+      return queue.PriorityQueue.qsize(self)
+  return PQ()
+
+
 def auto_proxy(director, sc, real_objects):
   """the attributes the translator bound by itself (sc.auto_bound) get the matching proxies on the real objects {object name: object}"""
   for (oname, attr, mname, kind) in getattr(sc, "auto_bound", []):
